@@ -177,7 +177,18 @@ func init() {
 	one := func(f func(c *FnCtx, a []string, st *State) string) libModel {
 		return func(c *FnCtx, x *ast.CallExpr, fobj *types.Func, a []string, st *State) []string {
 			c.useReflect()
-			return []string{f(c, a, st)}
+			r := f(c, a, st)
+			if c.specMode == 0 {
+				// the result is a value of its Go type (integer range, well-formed interface value)
+				rt := fobj.Type().(*types.Signature).Results().At(0).Type()
+				if _, isBasic := rt.Underlying().(*types.Basic); isBasic {
+					r = c.name(st, fobj.Name(), r, c.tt.sortOf(rt))
+					if inv := c.typeInv(st, r, rt, 0); inv != "true" {
+						st.addFact(inv)
+					}
+				}
+			}
+			return []string{r}
 		}
 	}
 	kindOfVal := func(v string) string { return ite(eq(v, "inil"), "0", "(kindOfTid (ityp "+v+"))") }
